@@ -201,14 +201,18 @@ def generate(rng, seed, size):
     n_pair = 0 if minimal else 2
     # and one more prefixed enum whose prefix is as long as the pair's ("Raw" / "Xy_"): what is prepended is the enum's own prefix
     n_eqlen = 0 if minimal else 1
-    for ei in range(target + n_shared + n_optional + n_bare + n_reent + n_pair + n_eqlen):
+    # and one under camelCase with an identifier whose first letter lower-cases to TWO characters (U+0130: i + combining dot).
+    # Only the styles that lower-case a word as a whole are inside the reference conversion's domain for such identifiers.
+    n_dotted = 0 if minimal else 1
+    for ei in range(target + n_shared + n_optional + n_bare + n_reent + n_pair + n_eqlen + n_dotted):
         shared_enum = target <= ei < target + n_shared
         optional_enum = target + n_shared <= ei < target + n_shared + n_optional
         bare_enum = target + n_shared + n_optional <= ei < target + n_shared + n_optional + n_bare
         reent_enum = target + n_shared + n_optional + n_bare <= ei < target + n_shared + n_optional + n_bare + n_reent
         pair_enum = ei - (target + n_shared + n_optional + n_bare + n_reent) if ei >= target + n_shared + n_optional + n_bare + n_reent else None
-        eqlen_enum = pair_enum is not None and pair_enum >= n_pair
-        if eqlen_enum:
+        eqlen_enum = pair_enum is not None and n_pair <= pair_enum < n_pair + n_eqlen
+        dotted_enum = pair_enum is not None and pair_enum >= n_pair + n_eqlen
+        if eqlen_enum or dotted_enum:
             pair_enum = None
         ename = "D%d" % ei
         block_start = len(out)
@@ -217,7 +221,7 @@ def generate(rng, seed, size):
         nvar = rng.randint(1, 7)
         if shared_enum:
             prefix, nvar = None, len(SHARED_IDENTS)
-        if optional_enum or bare_enum or reent_enum or pair_enum is not None or eqlen_enum:
+        if optional_enum or bare_enum or reent_enum or pair_enum is not None or eqlen_enum or dotted_enum:
             prefix, nvar = None, 1
         # serialize_all: only together with identifiers whose word splitting is unambiguous (casing.py)
         style = rng.choice(casing.STYLES) if (rng.random() < 0.3 and not minimal) else None
@@ -227,6 +231,8 @@ def generate(rng, seed, size):
             style = "snake_case"
         if eqlen_enum:
             style = None
+        if dotted_enum:
+            style = "camelCase"
         # systematic part: the first enums cover every serialize_all style, each with a variant named by its
         # (non-ASCII) identifier alone
         forced_style = (not robust) and ei < len(casing.STYLES)
@@ -376,6 +382,11 @@ def generate(rng, seed, size):
                     ("tuple", ["u8"], [], ['#[strum(serialize = "nine_char")]', '#[strum(serialize = "a{{b}}c{{d")]'], "a{{b}}c{{d")]:
                 variants.append(dict(ident="B%d" % len(variants), kind=kind, disabled=False, attrs=attrs, fixed=canon, literal=None,
                                      tys=tys, fnames=fnames, ref=None))
+        if dotted_enum:
+            variants = []
+            for (ident, kind, tys, fnames) in [("\u0130stanbulCity", "unit", [], []), ("\u0130zmir", "tuple", ["u8"], []), ("RedGreenBlue", "named", ["i64"], ["a"])]:
+                variants.append(dict(ident=ident, kind=kind, disabled=False, attrs=[], fixed=casing.convert(ident, style), literal=None, tys=tys,
+                                     fnames=fnames, ref=None))
         if eqlen_enum:
             variants = []
             for (ident, kind, tys, fnames) in [("TooHot", "unit", [], []), ("Idle", "tuple", ["u8"], []), ("Busy", "named", ["i64"], ["a"])]:
@@ -414,6 +425,8 @@ def generate(rng, seed, size):
             prefix = pair_prefix
         elif eqlen_enum:
             prefix = "Xy_"
+        elif dotted_enum:
+            prefix = None
         elif not robust and not shared_enum and not optional_enum and not bare_enum and not reent_enum:
             r = rng.random()
             if r < 0.08 and not has_interp:
@@ -429,7 +442,7 @@ def generate(rng, seed, size):
         decl = "<'a>" if uses_lt else ""
         inst = "<'static>" if uses_lt else ""
         # a type parameter (never displayed: Display is derived without bounds) in a fixed-name variant
-        if not uses_lt and not robust and not shared_enum and not optional_enum and not bare_enum and not reent_enum and pair_enum is None and not eqlen_enum and rng.random() < 0.12:
+        if not uses_lt and not robust and not shared_enum and not optional_enum and not bare_enum and not reent_enum and pair_enum is None and not eqlen_enum and not dotted_enum and rng.random() < 0.12:
             decl, inst = "<T>", "<u8>"
             gv = dict(ident="Gen%d" % len(variants), kind=rng.choice(["tuple", "named"]), disabled=False, attrs=[], fixed=None,
                       literal=None, tys=["T"], fnames=["gen_field"], ref=None)
